@@ -63,6 +63,8 @@ structure Sc where
   /-- multiply: `_num_node.format()` for the factor of this write, and the number that text denotes -/
   mulTxt : String
   mulWritten : Option Rat
+  /-- multiply: the factor it was written with (`_num_node._og_value`) -/
+  mulOg : Option Rat := none
   deriving Repr
 
 def relTol : Rat := mkRat Gen.relTolNum Gen.relTolDen
@@ -115,6 +117,12 @@ def isValidInterpolateEdge (s : Sc) (node : Leaf) (fwd : Bool) : Bool :=
         | none => false
         | some ev => isclose (if fwd then ev + s.sSpacing else ev - s.sSpacing) y
 
+/-- `ShortcutNode._is_product`: `p` is `b` times the factor the multiply was written with -/
+def isProduct (s : Sc) (b p : Rat) : Bool :=
+  match s.mulOg with
+  | some f => isclose (b * f) p
+  | none => false
+
 /-- `ShortcutNode._can_consume_node`; returns the shortcut too because MULTIPLY updates `_full` -/
 def canConsumeNode (s : Sc) (node : Leaf) (fwd : Bool) (lastEdgeShortcut : Bool) : Bool × Sc :=
   match s.kind with
@@ -130,7 +138,11 @@ def canConsumeNode (s : Sc) (node : Leaf) (fwd : Bool) (lastEdgeShortcut : Bool)
     if node.val.isNone then (false, s)
     else match s.nodes with
       | [] => (true, { s with full := lastEdgeShortcut })
-      | [_] => (!s.full && fwd, s)  -- it only grows at its end
+      | [bn] =>
+        -- it only grows at its end, and only by base times the factor it was written with (`_is_product`)
+        (!s.full && fwd && (match bn.val, node.val with
+          | some b, some p => isProduct s b p
+          | _, _ => false), s)
       | _ => (false, s)
 
 /-- `ShortcutNode.consume_edge_node` -/
@@ -262,6 +274,8 @@ def formatMultiply (s : Sc) (carried : Option Rat) : Option Fmt :=
     match base, product, s.mulWritten with
     | some b, some p, some w =>
       if b == 0 then none
+      -- only the multiply that was written is written again (`_is_product`)
+      else if !isProduct s b p then none
       else
         let written := b * w
         if isclose written p then
